@@ -14,7 +14,8 @@ import numpy as np
 import z3
 
 from . import cfront, corpus, eqcheck, gen, ksym, uflref
-from .formcheck import entity_configs, full_env, kernel_layout, num_entities, sid_list
+from .formcheck import (assumptions_hold, coeff_scale, entity_configs, full_env, geometry_env, kernel_layout, num_entities,
+                        sid_list, split_parts)
 from .kir import BudgetExceeded, collect_sites
 from .poly import CPoly, Ctx, KsymError, Poly, parts
 
@@ -494,3 +495,116 @@ def replay_bounds(p):
         print("REPRODUCED" if failed else "not reproduced")
         return 1 if failed else 0
     return 0
+
+
+# ---------------------------------------------------------------------------
+# C03 (second sentence): needs_facet_permutations == false  =>  result independent of the
+# permutation argument.  Runs on every interior-facet kernel of a corpus form.
+
+
+def _perm_pairs(nperm, tier):
+    if nperm <= 2:
+        return [(a, b) for a in range(nperm) for b in range(nperm) if (a, b) != (0, 0)]
+    pairs = [(a, 0) for a in range(1, nperm)] + [(0, b) for b in range(1, nperm)] + [(a, a) for a in range(1, nperm)]
+    if tier != "quick":
+        pairs += [(a, b) for a in range(1, nperm) for b in range(1, nperm) if a != b]
+    return pairs
+
+
+def _permflag(name, spec, res):
+    tier = spec.get("tier", "quick")
+    stats = eqcheck.QStats()
+    for form, m, c, fref, itd, sid, kn, idesc, kern in iter_kernels(name, spec):
+        if itd.integral_type != "interior_facet":
+            continue
+        res["kernels"] += 1
+        reads = "quadrature_permutation" in _free_ids(kern.body)
+        res["extra"]["flag_true" if idesc.needs_perm else "flag_false"] = res["extra"].get("flag_true" if idesc.needs_perm else "flag_false", 0) + 1
+        if idesc.needs_perm:
+            continue
+        if not reads:
+            # decided for every permutation value at once: the symbol does not occur in the kernel
+            stats.add("Q-dep", "unsat(no-occurrence)")
+            res["entries"] += 1
+            continue
+        cellname = itd.domain.ufl_cell().cellname
+        nw, nc, nx, shape, nA, width, cel = kernel_layout(fref, itd)
+        facet_cell = idesc.domain
+        nperm = NPERM.get(facet_cell, 1)
+        cfgs = entity_configs("interior_facet", cellname, tier, facet_cell)[: (2 if tier == "quick" else 6)]
+        lib = None
+        found = False
+        for ents in cfgs:
+            if found:
+                break
+            ctx = Ctx()
+            inp = uflref.Inputs(ctx, nw, nc, nx, fref.complex_mode)
+            base = ksym.run_kernel(kern, ctx, inp, nA, entities=ents, perms=(0, 0))
+            pb = split_parts(base.A)
+            for perms in _perm_pairs(nperm, tier):
+                if found:
+                    break
+                other = ksym.run_kernel(kern, ctx, inp, nA, entities=ents, perms=perms)
+                res["configs"] += 1
+                for (lab, a), (_, b) in zip(pb, split_parts(other.A)):
+                    D = b - a
+                    res["entries"] += 1
+                    verdict, _ = eqcheck.qident(ctx, D, stats)
+                    if verdict == "unsat":
+                        continue
+                    if verdict != "sat":
+                        res["inconclusive"].append(f"{name}:{kn}: perms {perms} entry {lab}: solver {verdict}")
+                        continue
+                    cs = max(coeff_scale([(lab, a)]), 1e-300)
+                    env = eqcheck.witness_rel(ctx, D, a, 1e-9, 1e-12 * cs, geometry_env(cel, cellname, width, 0),
+                                              lambda e: assumptions_hold(ctx, e, D.vars() | a.vars()), tries=60)
+                    if env is None:
+                        res["inconclusive"].append(f"{name}:{kn}: perms {perms} entry {lab}: sat, no concrete witness inside the assumptions")
+                        continue
+                    if lib is None:
+                        lib = ksym.build_so(c, "pf")
+                    w, cc, x = ksym.pack(inp, env)
+                    v0 = ksym.call_c_kernel(lib, kern, nA, w, cc, x, ents, (0, 0))
+                    v1 = ksym.call_c_kernel(lib, kern, nA, w, cc, x, ents, perms)
+                    idx = int(lab.split(".")[0])
+                    if abs(v0[idx] - v1[idx]) > 1e-9 * max(abs(v0[idx]), abs(v1[idx]), 1e-30):
+                        res["violations"].append({
+                            "key": f"{name}:{kn}:flag-false-but-depends",
+                            "what": f"needs_facet_permutations is false but A[{lab}] = {v0[idx]!r} for permutation codes (0,0) and {v1[idx]!r} for {perms} (entities {ents})",
+                            "replay": {"kind": "permflag", "name": name, "spec": spec, "kernel": kn, "ents": list(ents), "perms": list(perms), "entry": lab, "env": env}})
+                        found = True
+                        break
+                    res["inconclusive"].append(f"{name}:{kn}: perms {perms} entry {lab}: sat, not reproduced on the build")
+        if len(res["samples"]) < 2:
+            res["samples"].append({"kernel": kern.name, "needs_facet_permutations": bool(idesc.needs_perm), "reads_quadrature_permutation": reads})
+    res["queries"] = stats.q
+    res["solver_s"] = stats.secs
+
+
+def replay_permflag(p):
+    name, spec = p["name"], p["spec"]
+    for form, m, c, fref, itd, sid, kn, idesc, kern in iter_kernels(name, spec):
+        if kn != p["kernel"]:
+            continue
+        nw, nc, nx, shape, nA, width, cel = kernel_layout(fref, itd)
+        ctx = Ctx()
+        inp = uflref.Inputs(ctx, nw, nc, nx, fref.complex_mode)
+        env = {k: float(v) for k, v in p["env"].items()}
+        for v in ctx.vars:
+            if v.defn is None:
+                env.setdefault(v.name, 0.0)
+        lib = ksym.build_so(c, "pf")
+        w, cc, x = ksym.pack(inp, env)
+        v0 = ksym.call_c_kernel(lib, kern, nA, w, cc, x, p["ents"], (0, 0))
+        v1 = ksym.call_c_kernel(lib, kern, nA, w, cc, x, p["ents"], p["perms"])
+        idx = int(p["entry"].split(".")[0])
+        print(f"form={name} kernel={kn} needs_facet_permutations={bool(idesc.needs_perm)} entities={p['ents']}")
+        print(f"  A[{p['entry']}] with codes (0,0): {v0[idx]!r}\n  A[{p['entry']}] with codes {tuple(p['perms'])}: {v1[idx]!r}")
+        bad = (not idesc.needs_perm) and abs(v0[idx] - v1[idx]) > 1e-9 * max(abs(v0[idx]), abs(v1[idx]), 1e-30)
+        print("  REPRODUCED" if bad else "  not reproduced on this tree")
+        return 1 if bad else 0
+    print("kernel not found on this tree")
+    return 0
+
+
+permflag = _wrap(_permflag)
